@@ -102,7 +102,8 @@ Print Assumptions prune_keeps_reported_matches.
 Theorem fast_scan_matches_subset_with_first : forall el evs p,
   let N := tracked false el evs p in
   let F := tracked true el evs p in
-  incl F N /\ (el p = false -> F = N) /\ (el p = true -> F = firstn 1 N) /\
+  incl F N /\ (el p = false -> F = N) /\
+  (el p = true -> F = first_hit p evs /\ exists rest, N = F ++ rest) /\
   (forall m, hd_error N = Some m -> In m F).
 Proof. exact FastScanProofs.fast_scan_matches_subset_with_first. Qed.
 Print Assumptions fast_scan_matches_subset_with_first.
